@@ -36,5 +36,8 @@ func main() {
 	if c.Want("adv") {
 		advPart(c)
 	}
+	if c.Want("indep") {
+		indepPart(c)
+	}
 	c.Finish()
 }
